@@ -93,6 +93,19 @@ func (m *StreamMon) Enter() bool {
 	return true
 }
 
+// EnterLight / LeaveLight bracket a callback that is not a delivery (reassembly's Accept): it must not overlap another
+// callback of the same stream, but it may legitimately come after the stream's completion (a packet that was waiting for
+// the connection while it was being closed), so only the overlap is judged. A few yields inside widen the window.
+func (m *StreamMon) EnterLight() bool {
+	if !atomic.CompareAndSwapInt32(&m.busy, 0, 1) {
+		m.bad("overlapping-callbacks", fmt.Sprintf("stream %d: Accept ran while another callback of the same stream was running", m.ID))
+		return false
+	}
+	return true
+}
+
+func (m *StreamMon) LeaveLight() { atomic.StoreInt32(&m.busy, 0) }
+
 func (m *StreamMon) Leave() {
 	if len(m.Evs) < 8192 {
 		m.Evs = append(m.Evs, MonEv{m.evKind, m.evT0, int64(time.Since(monBase))})
